@@ -158,6 +158,29 @@ GNextSim == GEnd \/
                 /\ GDelete(cs, a, b)
 GSpecSim == GInit /\ [][GNextSim]_gvars
 
+\* ---- session-granular bounded-exhaustive generator. A writer session is the fixed
+\* sequence open(start = first sample) ; write ; close, so that scenarios made of several
+\* sessions and deletes ("write, delete everything, rewrite a superset, trim the new head")
+\* are reached EXHAUSTIVELY at small constants: Depth 8 = two sessions and two deletes.
+\* Deletes act on everything ({I,D,V}) or on the data channels only.
+SessSets == {{"D", "V"}, {"I", "D", "V"}}
+GNextSess ==
+  /\ Len(hist) < Depth
+  /\ IF OpenW # {}
+     THEN LET w == CHOOSE w \in OpenW : TRUE
+          IN IF wr[w].n = 0
+             THEN \E ts \in SUBSET Even : ts # {} /\ Min(ts) = wr[w].start /\ GWrite(w, ts)
+             ELSE GClose(w)
+     ELSE \/ \E w \in Writers, s \in Even :
+               /\ \A c \in Chan : \A d \in domains[c] : ~Inside(d, s)
+               /\ GOpen(w, {"I", "D", "V"}, s, TRUE)
+          \/ (AnyData /\ LastIs("delete") /\ GReopen)
+          \/ (LastIs("delete") /\ GGC)
+          \/ (\E cs \in SessSets, a, b \in Time :
+                 /\ a < b /\ \E c \in cs : \E t \in Samples(c) : a <= t /\ t < b
+                 /\ GDelete(cs, a, b))
+GSpecSess == GInit /\ [][GNextSess]_gvars
+
 Emit == Len(hist) # Depth \/ PrintT(<<"HIST", ToJson(hist)>>)
 \* simulation: print only the behaviour that was actually chosen (GEnd has one successor)
 EmitSim == Len(hist) # Depth + 1 \/ PrintT(<<"HIST", ToJson(SubSeq(hist, 1, Depth))>>)
